@@ -8,6 +8,7 @@ import (
 	"fmt"
 	"io"
 	"math"
+	"math/big"
 	"sort"
 	"strconv"
 	"strings"
@@ -377,7 +378,11 @@ intLiteral
 	{
 		// remove separator "_"s
 		intStr := strings.Replace($1.Literal, "_", "", -1)
-		n, _ := strconv.ParseInt(intStr, 10, 64)
+		n, err := strconv.ParseInt(intStr, 10, 64)
+		if err != nil {
+			// NOTE: out of int64 range
+			yylex.Error(intLiteralErrMsg($1.Literal))
+		}
 		$$ = &ast.IntLiteral{
 			Token: $1.Literal,
 			Value: n,
@@ -390,7 +395,11 @@ intLiteral
 		lit := strings.Replace($1.Literal, "_", "", -1)
 		// remove prefix "0x"
 		intStr := lit[2:]
-		n, _ := strconv.ParseInt(intStr, 16, 64)
+		n, err := strconv.ParseInt(intStr, 16, 64)
+		if err != nil {
+			// NOTE: out of int64 range
+			yylex.Error(intLiteralErrMsg($1.Literal))
+		}
 		$$ = &ast.IntLiteral{
 			Token: $1.Literal,
 			Value: n,
@@ -403,7 +412,11 @@ intLiteral
 		lit := strings.Replace($1.Literal, "_", "", -1)
 		// remove prefix "0o"
 		intStr := lit[2:]
-		n, _ := strconv.ParseInt(intStr, 8, 64)
+		n, err := strconv.ParseInt(intStr, 8, 64)
+		if err != nil {
+			// NOTE: out of int64 range
+			yylex.Error(intLiteralErrMsg($1.Literal))
+		}
 		$$ = &ast.IntLiteral{
 			Token: $1.Literal,
 			Value: n,
@@ -416,7 +429,11 @@ intLiteral
 		lit := strings.Replace($1.Literal, "_", "", -1)
 		// remove prefix "0b"
 		intStr := lit[2:]
-		n, _ := strconv.ParseInt(intStr, 2, 64)
+		n, err := strconv.ParseInt(intStr, 2, 64)
+		if err != nil {
+			// NOTE: out of int64 range
+			yylex.Error(intLiteralErrMsg($1.Literal))
+		}
 		$$ = &ast.IntLiteral{
 			Token: $1.Literal,
 			Value: n,
@@ -435,7 +452,7 @@ intLiteral
 		exp, _ := strconv.ParseFloat(toks[1], 64)
 		$$ = &ast.IntLiteral{
 			Token: $1.Literal,
-			Value: int64(val * math.Pow(10, exp)),
+			Value: expIntValue(yylex, $1.Literal, toks[0], toks[1], val, exp),
 			Src: yylex.(*Lexer).Source,
 		}
 	}
@@ -445,7 +462,11 @@ floatLiteral
 	{
 		// remove separator "_"s
 		floatStr := strings.Replace($1.Literal, "_", "", -1)
-		n, _ := strconv.ParseFloat(floatStr, 64)
+		n, err := strconv.ParseFloat(floatStr, 64)
+		if err != nil {
+			// NOTE: out of float64 range
+			yylex.Error(floatLiteralErrMsg($1.Literal))
+		}
 		$$ = &ast.FloatLiteral{
 			Token: $1.Literal,
 			Value: n,
@@ -462,7 +483,7 @@ floatLiteral
 		exp, _ := strconv.ParseFloat(toks[1], 64)
 		$$ = &ast.FloatLiteral{
 			Token: $1.Literal,
-			Value: float64(val * math.Pow(10, exp)),
+			Value: expFloatValue(yylex, $1.Literal, lit, val, exp),
 			Src: yylex.(*Lexer).Source,
 		}
 	} 
@@ -1144,7 +1165,10 @@ strLiteral
 	{
 		// unquote escape sequences here
 		// NOTE: backquotes are unwraped in Unquote
-		unquoted, _ := strconv.Unquote($1.Literal)
+		unquoted, err := strconv.Unquote($1.Literal)
+		if err != nil {
+			yylex.Error(strLiteralErrMsg($1.Literal))
+		}
 		$$ = &ast.StrLiteral{
 			Token: $1.Literal,
 			Value: unquoted,
@@ -1246,7 +1270,10 @@ embeddedStr
 	{
 		// unquote escape sequences here
 		// NOTE: doublequotes are unwraped in Unquote
-		unquoted, _ := strconv.Unquote("\""+$2.Literal[1:])
+		unquoted, err := strconv.Unquote("\""+$2.Literal[1:])
+		if err != nil {
+			yylex.Error(strLiteralErrMsg($2.Literal))
+		}
 		$$ = &ast.EmbeddedStr{
 			Token: $1.Token,
 			Former: $1,
@@ -1260,7 +1287,10 @@ formerStrPiece
 	{
 		// unquote escape sequences here
 		// NOTE: doublequotes are unwraped in Unquote
-		unquoted, _ := strconv.Unquote("\""+$2.Literal[1:len($2.Literal)-2]+"\"")
+		unquoted, err := strconv.Unquote("\""+$2.Literal[1:len($2.Literal)-2]+"\"")
+		if err != nil {
+			yylex.Error(strLiteralErrMsg($2.Literal))
+		}
 		$$ = &ast.FormerStrPiece{
 			Token: $1.Token,
 			Former: $1,
@@ -1272,7 +1302,10 @@ formerStrPiece
 	{
 		// unquote escape sequences here
 		// NOTE: doublequotes are unwraped in Unquote
-		unquoted, _ := strconv.Unquote($1.Literal[:len($1.Literal)-2]+"\"")
+		unquoted, err := strconv.Unquote($1.Literal[:len($1.Literal)-2]+"\"")
+		if err != nil {
+			yylex.Error(strLiteralErrMsg($1.Literal))
+		}
 		$$ = &ast.FormerStrPiece{
 			Token: $1.Literal,
 			Former: nil,
@@ -2152,6 +2185,54 @@ type Lexer struct {
 	program      ast.Node
 	Source		 *ast.Source
 	curRule		 string
+}
+
+func intLiteralErrMsg(literal string) string {
+	return fmt.Sprintf("int literal %s cannot be represented in 64 bits", literal)
+}
+
+func floatLiteralErrMsg(literal string) string {
+	return fmt.Sprintf("float literal %s cannot be represented in 64 bits", literal)
+}
+
+func strLiteralErrMsg(literal string) string {
+	return fmt.Sprintf("str literal %s contains invalid escape sequence", literal)
+}
+
+// expIntValue returns the exact value of literal (mantissa)e(exp).
+// If the literal does not denote an integer, the value is rounded toward zero.
+func expIntValue(yylex yyLexer, literal string, mantissa string, exponent string, val float64, exp float64) int64 {
+	m, ok := new(big.Int).SetString(mantissa, 10)
+	e, err := strconv.ParseInt(exponent, 10, 64)
+	if !ok || err != nil || e > 1000 || e < -1000 {
+		// fallback (never occurs as long as token regex is not changed)
+		return int64(val * math.Pow(10, exp))
+	}
+
+	n := new(big.Int)
+	if e >= 0 {
+		n.Mul(m, new(big.Int).Exp(big.NewInt(10), big.NewInt(e), nil))
+	} else {
+		n.Quo(m, new(big.Int).Exp(big.NewInt(10), big.NewInt(-e), nil))
+	}
+
+	if !n.IsInt64() {
+		yylex.Error(intLiteralErrMsg(literal))
+	}
+	return n.Int64()
+}
+
+// expFloatValue returns the float nearest to literal.
+func expFloatValue(yylex yyLexer, literal string, cleaned string, val float64, exp float64) float64 {
+	n, err := strconv.ParseFloat(cleaned, 64)
+	if err != nil {
+		if math.IsInf(n, 0) {
+			yylex.Error(floatLiteralErrMsg(literal))
+		}
+		// fallback (never occurs as long as token regex is not changed)
+		return float64(val * math.Pow(10, exp))
+	}
+	return n
 }
 
 func tokenTypes() []simplexer.TokenType{
